@@ -186,6 +186,9 @@ func execA(c caseA) (st stats, err error) {
 		switch o.Kind {
 		case "delete", "tagput", "tagdel", "copy":
 			putPlain(root, key+".src", body(i, 10+o.Size))
+		case "deldir", "tagdir":
+			putPlain(root, key+".dir/", nil) // a directory object: its key ends in '/'
+
 		case "batch":
 			for _, k := range o.Keys {
 				putPlain(root, fmt.Sprintf("%s.b%d", key, k), body(i, 5))
@@ -252,6 +255,21 @@ func execA(c caseA) (st stats, err error) {
 					r, err = cl.Call("POST", "/"+b+"/"+key, s3c.Q("uploadId", ini.UploadId), nil, s3c.CompleteXML([]s3c.Part{{PartNumber: 1, ETag: s3c.ETag(pr.Header.Get("ETag"))}}))
 					if err == nil && r.OK() && !strings.Contains(string(r.Body), "<Error>") {
 						add(expect{"s3:ObjectCreated:CompleteMultipartUpload", key, int64(len(data)), ""})
+					}
+				case "putdir":
+					r, err = cl.Call("PUT", "/"+b+"/"+key+".dir/", nil, nil, nil)
+					if err == nil && r.OK() {
+						add(expect{"s3:ObjectCreated:Put", key + ".dir/", 0, s3c.MD5Hex(nil)})
+					}
+				case "deldir":
+					r, err = cl.Call("DELETE", "/"+b+"/"+key+".dir/", nil, nil, nil)
+					if err == nil && r.OK() {
+						add(expect{"s3:ObjectRemoved:Delete", key + ".dir/", -1, ""})
+					}
+				case "tagdir":
+					r, err = cl.Call("PUT", "/"+b+"/"+key+".dir/", s3c.Q("tagging", ""), nil, s3c.TaggingXML([]s3c.Tag{{Key: "k", Value: "v"}}))
+					if err == nil && r.OK() {
+						add(expect{"s3:ObjectTagging:Put", key + ".dir/", -1, ""})
 					}
 				case "delete":
 					r, err = cl.Call("DELETE", "/"+b+"/"+key+".src", nil, nil, nil)
@@ -462,7 +480,7 @@ func TestC19A(t *testing.T) {
 			maxOps = 200
 		}
 		c.Ops = rapid.SliceOfN(rapid.Custom(func(t *rapid.T) op {
-			o := op{Kind: rapid.SampledFrom([]string{"put", "put", "put", "copy", "mpu", "delete", "batch", "tagput", "tagdel"}).Draw(t, "kind"),
+			o := op{Kind: rapid.SampledFrom([]string{"put", "put", "put", "copy", "mpu", "delete", "batch", "tagput", "tagdel", "putdir", "deldir", "tagdir"}).Draw(t, "kind"),
 				Size: rapid.IntRange(0, 2000).Draw(t, "size")}
 			if rapid.IntRange(0, 4).Draw(t, "fails") == 0 {
 				o.Fail = rapid.SampledFrom([]string{"nobucket", "baddigest", "denied"}).Draw(t, "fail")
